@@ -50,6 +50,10 @@ class EdzedUnknownEvent(_HandlerError):
     pass
 
 
+class InitFailed(_HandlerError):
+    pass
+
+
 def _scenarios():
     C = EventCondStub
     S = []
@@ -93,6 +97,9 @@ def _scenarios():
                ('H', 'a', {'value': 1})])
     add("no-event conditional to an uninitialised block does not initialise it", ('cond', 'init'), C(None, None),
         {'value': 1}, ('return', None), steps=0, trace=[])
+    add("the early initialisation fails: the simulator is told although the sender may catch the error",
+        ('init', 'errors', 'unlock'), 'a', {'value': 1}, ('fault', 'InitFailed'), steps=0, handler='init-fails',
+        trace=[('INIT', True, 'window-open'), ('ABORT', 'InitFailed', None)])
     add("handler reports an unknown event", ('errors', 'unlock'), 'a', {}, ('fault', 'EdzedUnknownEvent'),
         handler='unknown', trace=[('H', 'a', {})])
     add("error raised inside the handler", ('errors', 'unlock'), 'a', {'value': 3}, ('fault', 'RuntimeErrorInHandler'),
@@ -173,6 +180,9 @@ def sblock_event_run(ck):
                 me_ = holder['me']
                 T.append(('INIT', full, 'window-open' if me_.env.get('self._event_active') is False
                           else 'window-closed'))
+                if mode == 'init-fails':
+                    me_.env['self.init_steps_completed'] = -2
+                    raise InitFailed('InitFailed', 3)
                 me_.env['self.init_steps_completed'] = 2
                 if mode == 'ok-reenter':
                     out = run_event(me_, 'b', {'value': 'init'})
@@ -273,7 +283,7 @@ ASPECT_TEXT = {
     'init': "a block with 0 or 1 completed initialisation steps is initialised (full=True) before the handler runs, "
             "inside the window that permits the initialising event; a block with 2 steps or outside a simulation "
             "is not",
-    'errors': "an error raised inside a handler is reported with circuit.abort(EdzedCircuitError caused by it) and "
+    'errors': "a failed early initialisation is reported with circuit.abort(); an error raised inside a handler is reported with circuit.abort(EdzedCircuitError caused by it) and "
               "re-raised; EdzedUnknownEvent and an error of the call itself (one traceback level) are re-raised "
               "without abort",
 }
